@@ -248,7 +248,14 @@ C13_INV = ["Terminates", "WeakLaw", "OnlyWhitespaceRemoved", "FacingTextLaw", "B
 def check_C13(ctx):
     consts = {"N": 2 if ctx.quick else 3, "Policy": '"intended"', "Bits": "FALSE" if ctx.quick else "TRUE"}
     cases, _ = ctx.tlc_mc("MC_C13", mc_cfg(consts, C13_INV + ["EmitCase"]), timeout=3000)
-    validate_by_module(ctx, ctx.run_cases(cases))
+    # each case once more written tight (no blanks inside the delimiters: "{{-x-}}", "{%-assign q = 1-%}")
+    tight = []
+    for c in cases:
+        c2 = dict(c)
+        c2["id"] = "tight-" + str(c["id"])
+        c2["spell"] = {"tight": True}
+        tight.append(c2)
+    validate_by_module(ctx, ctx.run_cases(cases + tight))
     gen = ctx.gen("progtrim", 3000 if ctx.quick else 40000)
     for g in gen:
         g["tm"] = "TraceC13"
